@@ -818,9 +818,12 @@ impl<T: Transport, Env: UtpEnvironment> VirtualSocket<T, Env> {
             } => {
                 debug!(payload_size, ?self.last_sent_seq_nr, ?rewind_to, "MTU probe expired");
                 // In case the retransmit timer expired, this is not "real" expiry, but expiry due to us sending
-                // too large segment. So ignore the retransmit timer, pretend it didn't fire.
-                self.timers.retransmit.turn_off("MTU probe is not real RTO");
-                self.rto_retransmissions = 0;
+                // too large segment. So ignore the retransmit timer, pretend it didn't fire - but only if
+                // the probe was all that was outstanding: earlier segments did time out for real.
+                if self.user_tx_segments.calc_flight_size(rewind_to) == 0 {
+                    self.timers.retransmit.turn_off("MTU probe is not real RTO");
+                    self.rto_retransmissions = 0;
+                }
 
                 // TODO: do we need to IF here? Maybe min instead?
                 if self.last_sent_seq_nr > rewind_to {
